@@ -80,6 +80,11 @@ def kind_terms():
         out.append((Cho((M('p', B), M('x', l))), 'K:cho'))
         out.append((Seq((M('pad', B),), ext=True, adds=(M('x', l), Grp((M('g', l), M('h', B, 'O'))))), 'K:add'))
         out.append((Cho((M('p', B),), ext=True, adds=(M('x', Of(Seq((M('e', l),)))),)), 'K:cho-add-of-seq'))
+        # list elements are encoded through a separate entry point in the text codecs (encode_of): the element
+        # kinds that own a path segment (CHOICE alternative, nested list, SEQUENCE) as elements
+        out.append((Of(Cho((M('p', B), M('x', l)))), 'K:of-cho'))
+        out.append((Of(Cho((M('p', B), M('s', Seq((M('e', l), M('f', B))))))), 'K:of-cho-seq'))
+        out.append((Of(Of(l)), 'K:of-of'))
     # nested components with the same name (distinct objects that compare equal by name)
     for l in leaves[:7]:
         out.append((Seq((M('x', Seq((M('x', l), M('y', B, 'O')))),)), 'K:same-name-seq'))
